@@ -34,7 +34,7 @@ ASSUMPTIONS = [
 
 # ----------------------------------------------------------------------------------------
 class Tgt:
-    def __init__(self, name, k):
+    def __init__(self, name, k, offset=0.0):
         import cuqi
         self.calls = []
         if name == "gauss1":
@@ -64,6 +64,10 @@ class Tgt:
             d = 2
         else:
             raise KeyError(name)
+        if offset:
+            # unnormalised target: the log-density carries an additive constant (invariance does not depend on it)
+            lp0 = lp
+            lp = lambda x: lp0(x) + offset
         self.dim, self.lp, self.gr = d, lp, gr
 
         def grec(x):
@@ -82,6 +86,21 @@ BASES = {
     # (U-turn between its leaves) while the outer span does not (event "second-half-stop-only")
     "stiff2": [([-0.3, 1.5], [0.5, 0.4]), ([-1.0, -2.0], [-0.4, 1.1]), ([-0.3, 0.5], [0.9, 1.1])],
 }
+
+
+INT_BASES = {   # integer-valued start points (one per value catalogue)
+    "gauss1": [([1], [0.9]), ([-2], [0.3]), ([0], [-1.7])],
+    "gauss2c": [([1, -1], [0.8, -0.6]), ([0, 2], [0.2, 1.1]), ([-1, 0], [-0.9, -0.3])],
+    "banana2": [([1, 0], [0.7, -0.5]), ([-1, 1], [0.4, 0.9]), ([0, 2], [-1.2, 0.3])],
+}
+
+
+def _x0(th, rep):
+    if rep == "int":
+        return np.array(np.round(th), dtype=int)
+    if rep == "list":
+        return [int(round(v)) for v in th]
+    return np.array(th, dtype=float)
 
 
 class Orbit:
@@ -231,6 +250,14 @@ def cells(tier, seed):
             if iface == "exp":
                 for D in ((1,) if tier == "quick" else (0, 1, 2)):
                     yield {"iface": iface, "target": t, "eps": 0.6, "D": D, "base": 1, "hist": "warm", "cat": k, "tier": tier}
+        # unnormalised targets: log-density level far outside the range where exp() is representable
+        for off in (-800.0, 800.0):
+            for t, eps, D in ((("gauss2c", 0.6, 1),) if tier == "quick" else (("gauss2c", 0.6, 1), ("gauss2c", 1.3, 2), ("banana2", 0.6, 2), ("gauss1", 2.1, 1))):
+                yield {"iface": iface, "target": t, "eps": eps, "D": D, "base": 0, "hist": "fresh", "cat": k, "tier": tier, "off": off}
+        # representation of the initial point: integer-valued start given as integer array / list / float array
+        for rep in ("int", "list", "float"):
+            for t, eps, D in ((("gauss2c", 0.6, 1),) if tier == "quick" else (("gauss2c", 0.6, 1), ("gauss2c", 0.6, 2), ("banana2", 0.6, 1), ("gauss1", 0.6, 1))):
+                yield {"iface": iface, "target": t, "eps": eps, "D": D, "base": "int", "hist": "fresh", "cat": k, "tier": tier, "x0rep": rep, "cols": 0}
         # stiff/soft Gaussian with the step near the stability limit of the stiff direction: U-turns *inside* sub-trees
         for eps, bases in (((0.85, (0,)), (0.95, (1,))) if tier == "quick" else ((0.7, (0, 1, 2)), (0.85, (0, 1, 2)), (0.95, (0, 1, 2)))):
             for D in ((2,) if tier == "quick" else (1, 2, 3)):
@@ -245,17 +272,25 @@ def eval_cell(cell):
     import cuqi
     res = CellResult(cell)
     k = cell["cat"]
-    tgt = Tgt(cell["target"], k)
+    tgt = Tgt(cell["target"], k, cell.get("off", 0.0))
     D, iface = cell["D"], cell["iface"]
     comp = "%s.NUTS" % iface
-    th0, r0 = BASES[cell["target"]][cell["base"]]
-    th0 = np.array(th0) + 0.03125 * k
+    if cell["base"] == "int":
+        th0, r0 = INT_BASES[cell["target"]][k]
+        th0 = np.array(th0, dtype=float)
+    else:
+        th0, r0 = BASES[cell["target"]][cell["base"]]
+        th0 = np.array(th0) + 0.03125 * k
     eps = cell["eps"]
     saved = None
     facet = "history=%s" % cell["hist"]
+    if cell.get("off"):
+        facet += ",logd-offset=%s" % ("large-negative" if cell["off"] < 0 else "large-positive")
+    if cell.get("x0rep"):
+        facet += ",x0=%s" % cell["x0rep"]
     if cell["hist"] == "warm":
         s = cuqi.experimental.mcmc.NUTS(tgt.obj, initial_point=np.array(th0), max_depth=D, step_size=eps)
-        st = Stream(normal=lambda n, i: refs.dyadic_vec(n, i + k, scale=0.25), exponential=lambda rec, i: [0.3, 0.7, 0.2][i % 3])
+        st = Stream(normal=lambda n, i: refs.dyadic_vec(n, i + k, scale=0.25), exponential=lambda rec, i: [0.3, 0.7, 0.2][i % 3], log_uniform="exponential")
         with st.installed():
             s.warmup(2)
         saved = copy.deepcopy(s.get_state())
@@ -266,7 +301,7 @@ def eval_cell(cell):
             s2 = cuqi.experimental.mcmc.NUTS(tgt.obj, initial_point=np.array(th0), max_depth=D, step_size=cell["eps"])
             s2.initialize()
             s2.set_state(copy.deepcopy(saved))
-            st2 = Stream(normal=lambda n, i: refs.dyadic_vec(n, i + 2 + k, scale=0.25), exponential=lambda rec, i: 0.4,
+            st2 = Stream(normal=lambda n, i: refs.dyadic_vec(n, i + 2 + k, scale=0.25), exponential=lambda rec, i: 0.4, log_uniform="exponential",
                          decisions=Decisions(pattern))
             with st2.installed():
                 s2.sample(3)
@@ -281,6 +316,8 @@ def eval_cell(cell):
     lo, hi = -2 * W - c - 1, 2 * W + c + 1
     Hs = {i: orb.H(i) for i in range(lo, hi + 1)}
     starts = list(range(-W - c, W + c + 1))
+    if cell.get("x0rep"):
+        starts = [0]          # only the base point itself is integer-valued
     # slice levels: below everything, and midpoints at the quantiles of the start energies
     hv = sorted(set(round(v, 12) for v in Hs.values() if np.isfinite(v)))
     sv = sorted(Hs[i] for i in starts if np.isfinite(Hs[i]))
@@ -342,9 +379,10 @@ def run_start(cell, tgt, orb, kk, ell, D, eps, saved, res, comp, facet, lo, hi, 
 
     def run(d):
         tgt.calls = []
-        st = Stream(normal=[r_k], exponential=[e_ans], decisions=d)
+        st = Stream(normal=[r_k], exponential=[e_ans], decisions=d, log_uniform="exponential")
+        x0 = _x0(th_k, cell["x0rep"]) if cell.get("x0rep") else np.array(th_k)
         if iface == "exp":
-            s = cuqi.experimental.mcmc.NUTS(tgt.obj, initial_point=np.array(th_k), max_depth=D, step_size=cell["eps"])
+            s = cuqi.experimental.mcmc.NUTS(tgt.obj, initial_point=x0, max_depth=D, step_size=cell["eps"])
             s.initialize()
             if saved is not None:
                 stt = copy.deepcopy(saved)
@@ -359,7 +397,7 @@ def run_start(cell, tgt, orb, kk, ell, D, eps, saved, res, comp, facet, lo, hi, 
             return {"x": np.array(s.current_point, float), "logd": float(np.asarray(state["current_target_logd"]).ravel()[0]),
                     "grad": np.array(state["current_target_grad"], float), "calls": list(tgt.calls),
                     "eps_used": float(s.epsilon_list[-1])}
-        s = cuqi.sampler.NUTS(tgt.obj, x0=np.array(th_k), max_depth=D, adapt_step_size=eps)
+        s = cuqi.sampler.NUTS(tgt.obj, x0=x0, max_depth=D, adapt_step_size=eps)
         with st.installed():
             r = s.sample(2)
         return {"x": np.array(r.samples[:, 1], float), "logd": float(r.loglike_eval[1]), "grad": None,
@@ -443,7 +481,7 @@ def check_alpha_stat(cell, tgt, orb, kk, ell, D, res, comp):
     th_k, r_k = orb.theta(kk), orb.r(kk)
 
     def run(d):
-        st = Stream(normal=[r_k], exponential=[orb.H(kk) - ell], decisions=d)
+        st = Stream(normal=[r_k], exponential=[orb.H(kk) - ell], decisions=d, log_uniform="exponential")
         s = cuqi.experimental.mcmc.NUTS(tgt.obj, initial_point=np.array(th_k), max_depth=D, step_size=cell["eps"], opt_acc_rate=0.6)
         with st.installed():
             s.warmup(1)
